@@ -228,6 +228,9 @@ def split(sx, B):
     for n in meta.nodes:
         sx.claim(all(mol.nodes[a]["resid"] == meta.nodes[n]["resid"] and mol.nodes[a]["resname"] == meta.nodes[n]["resname"]
                      for a in meta.nodes[n]["graph"].nodes), "atoms carry the name and id of their new residue")
+        sx.claim(meta.nodes[n].get("build") is True and meta.nodes[n].get("backmap") is True,
+                 "every residue (split or not) is still flagged for building and backmapping, as before the split",
+                 lambda: "%s: residue %r (%s) has %r" % (spec, n, meta.nodes[n]["resname"], {k: meta.nodes[n].get(k) for k in ("build", "backmap")}))
 
 
 @condition("C18.ligands",
